@@ -137,13 +137,13 @@ ADDED = {
     "C05": " Facility records of every length up to 2600 (20000 thorough) and around every power of two up to 2^17, attitude records of every length up to 700 (3000). Facility records 2 and 5 beginning at 2^15..2^18 -14..+2.",
     "C06": " Plus 100-, 1030- and 1100-line products (many line groups; more lines than the default request size). An 8300-line product at request sizes around and beyond 8192 lines. 1100x200 / 1030x60 products on the local filesystem (requests of 64 KiB and more).",
     "C07": " Plus per-line values that are identical / drift by one unit / are piecewise constant (what a size-optimised index would fold), and 16 configurations in an interpreter whose locale encoding is ASCII. The first pixel load of a fresh cached tree must read what an uncached tree's load reads; use_cache=True with create_cache=True must use a usable cache without touching the image.",
-    "C08": " Plus pattern arrays (identical elements, zeros of mixed sign, adjacent representable values, all NaN/NaT) and long arrays (20..5000 elements, piecewise constant with change points 4/15/1000/1024/4096, full-range ramps, both byte orders), reader-produced 4200-line groups. Backend byte ranges straddling / touching offsets 2^31, 2^32 and 2^40 on every line; non-contiguous, transposed and strided input arrays.",
+    "C08": " Plus pattern arrays (identical elements, zeros of mixed sign, adjacent representable values, all NaN/NaT) and long arrays (20..5000 elements, piecewise constant with change points 4/15/1000/1024/4096, full-range ramps, both byte orders), reader-produced 4200-line groups. Backend byte ranges straddling / touching offsets 2^31, 2^32 and 2^40 on every line; non-contiguous, transposed and strided input arrays. Text that reads like a token of another type (NaN, Infinity, null, true, numbers, times, containers) as attribute values, nested in lists/tuples and as elements of string arrays.",
     "C09": " Plus an 18000-line image whose index exceeds 5 MiB, cut at every power of two 2^12..2^22 and every MiB multiple in both locations (block-wise copies and reads). Default opens of torn indexes while no file can grow beyond the prefix length (RLIMIT_FSIZE: the volume is still full). With a complete index in the other location the line records must not be re-read. Real crash points: a forked child running create_cache=True is killed by the kernel (RLIMIT_FSIZE + default SIGXFSZ) at byte k of the cache file it writes; the parent opens, repairs and re-opens what was left.",
     "C10": " Products have 22..23-line images with piecewise-constant per-line values.",
-    "C11": " Plus pointwise (vectorised) pairs and triples, loads from deep copies / pickle round trips, and images of 2100..5120 lines and 104 MB. Plus an index written by the command line tool elsewhere and deployed next to the image, every selection being the first load of a fresh copy of the lazy object. Narrow column windows of 16- and 40-pixel lines.",
+    "C11": " Plus pointwise (vectorised) pairs and triples, loads from deep copies / pickle round trips, and images of 2100..5120 lines and 104 MB. Plus an index written by the command line tool elsewhere and deployed next to the image, every selection being the first load of a fresh copy of the lazy object. Narrow column windows of 16- and 40-pixel lines. Two ~290 MB images of 290-300 lines (records near the 999 999-byte limit of the length field) whose line records fit one request of more than 256 MiB.",
     "C12": " Plus declared-vs-loaded shape/dtype of 9 selections on 8 realistically sized images (up to 104 MB).",
     "C13": " Plus products with index files next to every non-empty subset of their images. Plus products whose images carry per-line values one unit of the last stored digit apart (or equal in pairs). Products whose images have identical file descriptors field by field (as the polarisations of one scene do) with differing per-line values.",
-    "C14": " 14 corruption kinds (4 with non-ASCII letters / underscore / quote); typed values incl. leap second, leap day, number spellings and every table code. Scene-id dates with every two-digit year and every day around the turn of seven years.",
+    "C14": " 14 corruption kinds (4 with non-ASCII letters / underscore / quote); typed values incl. leap second, leap day, number spellings and every table code. Scene-id dates with every two-digit year and every day around the turn of seven years. Every order of the 4 / 6 shape lines of 2 / 3 shape indices.",
     "C15": " The near-miss alphabet contains the line feed, non-ASCII digits and letters, lower case and control characters.",
     "C16": " Plus creation times around daylight-saving switch-overs under four local time zones, text that looks like a date-time, and the volume directory replaced in place between two opens.",
     "C17": " Plus 16 times of day at every order of magnitude of the ms/us counters, decimal seconds up to 86399.9999996, blank-padded date texts, four daylight-saving time zones and images of up to 2049 lines. Plus millisecond stamps ahead of the microsecond counter. 130 attitude points with distinct milliseconds on nine days of the year, exact to the nanosecond.",
